@@ -22,7 +22,7 @@ from .callgraph import EXACT, get_callgraph
 from .cfg import cfg_of, own_exprs
 from .loader import ClassInfo, External, FunctionInfo, norm, walk_no_nested
 
-ANY, MAP = "ANY", "MAP"
+ANY, MAP, STR = "ANY", "MAP", "STR"
 MAPPING_TYPES = ("dict", "Mapping", "collections.abc.Mapping", "abc.Mapping", "collections.Mapping", "OrderedDict",
                  "collections.OrderedDict", "MutableMapping", "collections.abc.MutableMapping", "_STIXBase")
 ELEMENT_METHODS = ("get", "pop", "setdefault", "popitem")
@@ -151,6 +151,8 @@ class Kinds(object):
             return None
         if isinstance(e, ast.Attribute):
             b = self.shape_of(e.value, env)
+            if b == STR:
+                return None
             return ANY if b is not None else None
         if isinstance(e, ast.Subscript):
             b = self.shape_of(e.value, env)
@@ -159,6 +161,12 @@ class Kinds(object):
             if isinstance(e.slice, ast.Slice):
                 return b
             return ANY
+        if isinstance(e, ast.BinOp) and isinstance(e.op, (ast.Sub, ast.BitOr, ast.BitAnd, ast.BitXor)):
+            # set algebra over the key views of raw mappings: still a set of member names taken from the input
+            l, r = self.shape_of(e.left, env), self.shape_of(e.right, env)
+            if any(isinstance(x, tuple) and (x[0] == "KEYS" or (x[0] == "VIEW" and x[1] == "keys")) for x in (l, r)):
+                return ("KEYS",)
+            return None
         if isinstance(e, ast.BoolOp):
             s = None
             for v in e.values:
@@ -210,15 +218,23 @@ class Kinds(object):
                     return ("PAIR",)
                 if s[1] == "values":
                     return ANY
-                return None     # keys of a mapping are (JSON) strings
+                return STR      # keys of a mapping are (JSON) strings -- of any length, the empty string included
+            if s[0] == "KEYS":
+                return STR
             if s[0] == "SEQ":
                 return ANY if s[1] is not None else None
+        if s == MAP:
+            return STR          # iterating a mapping yields its keys
+        if s == STR:
+            return None
         return ANY
 
     def bind(self, tgt, s, env):
         if isinstance(tgt, ast.Name):
             env.kill(tgt.id)
             if s is not None and not isinstance(s, tuple):
+                env.shape[tgt.id] = s
+            elif isinstance(s, tuple) and s[0] == "KEYS":
                 env.shape[tgt.id] = s
             elif isinstance(s, tuple) and s[0] in ("VIEW", "SEQ"):
                 env.shape[tgt.id] = ANY if s[0] == "SEQ" else MAP
@@ -410,13 +426,13 @@ class Kinds(object):
                 self.findings.append(Finding(fi, e, "AttributeError", "%s.%s" % (norm(e.value), e.attr), s))
         if isinstance(e, ast.Subscript) and isinstance(e.ctx, ast.Load) and not isinstance(e.slice, ast.Slice):
             s = self.shape_of(e.value, env)
-            if s in (ANY, MAP) and isinstance(e.slice, ast.Constant):
+            if s in (ANY, MAP, STR) and isinstance(e.slice, ast.Constant):
                 k = e.slice.value
-                if isinstance(k, str):
+                if isinstance(k, str) and s != STR:
                     known = isinstance(e.value, ast.Name) and ("has", e.value.id, k) in env.facts
                     if not known and not catches(e, ("KeyError",)):
                         self.findings.append(Finding(fi, e, "KeyError", "%s[%r]" % (norm(e.value), k), s))
-                elif isinstance(k, int) and s == ANY:
+                elif isinstance(k, int) and s in (ANY, STR):
                     known = isinstance(e.value, ast.Name) and ("nonempty", e.value.id) in env.facts and k in (0, -1)
                     if not known and not catches(e, ("IndexError", "KeyError")):
                         self.findings.append(Finding(fi, e, "IndexError", "%s[%r]" % (norm(e.value), k), s))
